@@ -24,7 +24,9 @@ TITLE = 'perdictable evaluates a function once per row of the keyed join of its 
 STATEMENT = ('perdictable(f, on=keys) returns f(...) itself for scalar inputs; with table inputs one row per key present in every table input '
              '(scalars broadcast), sorted by key, valued f(that key\'s values); inputs named in defaults are outer-joined with their default; '
              'rows with a supplied previous value and an expiry in the past keep it without a call of f, all other rows are computed exactly once')
-LEAN_FILES = ['Basic', 'Cmp', 'Sort', 'TableBasic', 'Join', 'PerDict', 'PerDictDriver', 'Tri', 'CmpLemmas', 'JoinLemmas', 'PerDictLemmas', 'UnlistLemmas', 'PivotLemmas', 'GroupLemmas', 'C02', 'C20']
+LEAN_FILES = ['Basic', 'Cmp', 'Sort', 'TableBasic', 'Join', 'PerDict', 'PerDictDriver', 'Tri', 'CmpLemmas', 'JoinLemmas', 'PerDictLemmas', 'UnlistLemmas', 'PivotLemmas', 'GroupLemmas', 'C02', 'C07', 'C20',
+              'KeyedRows', 'PerDictSem', 'PerDictStep', 'PerDictFold', 'PerDictTables', 'PerDictItem', 'PerDictJoin',
+              'PygModel/Table.lean', 'TableLemmas', 'TableRect', 'TableRows']
 RULE = 'distinct protocol lines (one lifted call) with at least one table input on which the implementation returned'
 TRUSTED = ['correspondence harness (pv.engine, pv.proto) and generators / reference evaluation of pv.props.c20',
            'Lean driver parser/printer (PygModel/Basic.lean, PerDictDriver.lean)']
